@@ -309,7 +309,8 @@ def judge(ctx, cfg_id, pieces, form, case):
             ctx.violation("tokenizer-raises", {"type": type(err).__name__, "msg": str(err)[:100]}, case)
             return
         end_tok = got.pop()
-        obs = [(t.name, t.start_pos.coords, t.end_pos.coords) for t in got]
+        # (positions are read through the two public accessors in turns)
+        obs = [(t.name,) + (t.span if k % 2 else (t.start_pos.coords, t.end_pos.coords)) for k, t in enumerate(got)]
         exp = [(n, s, e) for n, s, e, _ in stream]
         if obs != exp:
             k = next((i for i, (a, b) in enumerate(zip(obs, exp)) if a != b), min(len(obs), len(exp)))
@@ -370,7 +371,7 @@ def judge(ctx, cfg_id, pieces, form, case):
 
     walk(tree)
     leaves = [n for k, n in order if k == "leaf"]
-    if [(n.name, n.start_pos.coords, n.end_pos.coords) for n in leaves] != [(a, b, c) for a, b, c, _ in exp_leaves]:
+    if [(n.name,) + tuple(n.span) for n in leaves] != [(a, b, c) for a, b, c, _ in exp_leaves]:
         ctx.violation("leaf-spans-differ", {
             "got": [(n.name, n.span) for n in leaves][:8], "expected": [x[:3] for x in exp_leaves][:8]}, case)
         return
